@@ -180,6 +180,10 @@ func cmdCheck(args []string) int {
 			}
 		}
 	}
+	if os.Getenv("GOWP_ONLYCONFORM") != "" {
+		// (seed matrix: only the bounded harnesses; the exit status is then meaningless)
+		todo = nil
+	}
 	// VC generation (parallel per function)
 	results := make([]*FuncResult, len(todo))
 	var wg sync.WaitGroup
@@ -229,7 +233,11 @@ func cmdCheck(args []string) int {
 		}
 	}
 	// data invariants and lemmas
-	dobls, derr := e.dataObligations(prop)
+	var dobls []*Obligation
+	var derr error
+	if os.Getenv("GOWP_ONLYCONFORM") == "" {
+		dobls, derr = e.dataObligations(prop)
+	}
 	if derr != nil {
 		fmt.Printf("BROKEN-CONTRACT datainv: %v\n", derr)
 		broken++
@@ -349,10 +357,11 @@ func cmdCheck(args []string) int {
 		}
 		for _, f := range r.fails {
 			name := "conform:" + f.ID
-			if conformSeen[name] {
+			seenKey := name + "|" + strings.Join(f.props, ",") // (ALL: once per property group)
+			if conformSeen[seenKey] {
 				continue
 			}
-			conformSeen[name] = true
+			conformSeen[seenKey] = true
 			if kf := matchKnown(known, prop, name); kf != nil {
 				fmt.Printf("KNOWN-FINDING: property=%s %s [%s]\n", prop, kf.Description, name)
 				knownHit = append(knownHit, name)
